@@ -229,3 +229,16 @@ def core_tail_kripke(rnd, atoms=('p', 'q')):
         n += k
     L = [sorted(x for x in atoms if rnd.random() < 0.5) for _ in range(n)]
     return {'n': n, 'R': [list(e) for e in sorted(R)], 'L': L}, nc
+
+
+def shared_polarity_formulas(leaves=(('ap', 'p'), ('ap', 'q'))):
+    """path formulas in which one temporal subformula h occurs twice, under different polarities / contexts"""
+    P, Q = leaves
+    hs = [('F', P), ('G', P), ('U', P, Q), ('X', P), ('R', Q, P), ('F', ('G', P)), ('G', ('F', Q)), ('U', TR, ('not', P))]
+    out = []
+    for h in hs:
+        for x in (Q, ('not', Q), ('X', Q)):
+            out += [('imp', h, ('and', x, h)), ('or', ('not', h), ('and', x, h)), ('and', h, ('not', ('or', x, h))), ('imp', ('or', x, h), h),
+                    ('U', h, ('not', h)), ('imp', h, ('X', h)), ('or', ('and', h, x), ('and', ('not', h), ('not', x))), ('R', ('not', h), ('or', x, h)),
+                    ('imp', ('not', h), ('F', h)), ('and', ('or', x, ('not', h)), ('or', h, x)), ('G', ('imp', h, ('or', x, h))), ('not', ('imp', h, ('and', x, h)))]
+    return dedup(out)
